@@ -321,57 +321,9 @@ def check_witness(ctx, oid="C05.4"):
                 "witness stack serialisation: %s" % tm.first_diff(got, want), expected=tm.show(want), found=tm.show(got),
                 example="a witness item of 253 bytes or more")
     ev.assumptions = {}
-    fd = ctx.fn("bits.script.utils.decode_script")
-    sb = P("scriptbytes", tm.BYTES)
-    for parse in (False, True):
-        s = ev.run(fd, {"witness": True, "parse": parse})
-        cnt, rest = pcs(sb, 0), pcs(sb, 1)
-        empties = [e for e in s.returns() if any(tm.veq(g, tm.lnot(tm.truth(cnt))) for g in e.guard) and not any(
-            isinstance(g, T) and g.op == "iter" for g in e.guard)]
-        want0 = (cs(cnt) if parse else [], rest)
-        ok = bool(empties) and tm.veq(tm.freeze(tuple(empties[0].value) if isinstance(empties[0].value, (list, tuple)) else empties[0].value), tm.freeze(want0))
-        R.check(oid, "DOM", fd, "empty witness stack (parse=%s) returns without consuming items" % parse, ok,
-                "count 0 must return (%s, remainder after the count) before any item is read; found %s" % (
-                    "count bytes" if parse else "[]", [tm.show(e.value)[:120] for e in empties] or "no such exit"),
-                example="a segwit transaction with an empty witness for one input")
-        loops = [lp for lp in s.loops if lp.kind == "while" and lp.func == fd.qualname]
-        R.check(oid, "THREAD", fd, "item loop present (parse=%s)" % parse, len(loops) == 1, "expected one item loop")
-        if len(loops) != 1:
-            continue
-        lp = loops[0]
-        remvar = None
-        for var, val in lp.body.items():
-            acc = T("acc", (var, lp.depth), tm.BYTES)
-            n, r = pcs(acc, 0), pcs(acc, 1)
-            if tm.veq(val, tm.slc(r, n, None)):
-                remvar = var
-                break
-        R.check(oid, "THREAD", fd, "item length by CompactSize, remainder rebound (parse=%s)" % parse,
-                remvar is not None,
-                "no variable is rebound to remainder[after cs length][len:] in the witness item loop; bodies: %s" % {
-                    k: tm.show(v)[:100] for k, v in lp.body.items()},
-                example="a witness item of 253 bytes or more")
-        if remvar is None:
-            continue
-        acc = T("acc", (remvar, lp.depth), tm.BYTES)
-        n, r = pcs(acc, 0), pcs(acc, 1)
-        item = tm.hexs(tm.slc(r, None, n))
-        R.check(oid, "THREAD", fd, "item = first len bytes after the length (parse=%s)" % parse,
-                any(tm.contains(v, lambda t: tm.veq(t, item)) for v in lp.body.values()),
-                "decoded item is not remainder[:len]")
-        # exits inside the loop when the count reaches zero return the rebound remainder
-        inl = [e for e in s.returns() if any(isinstance(g, T) and g.op == "iter" for g in e.guard)]
-        okr = bool(inl) and all(isinstance(e.value, (list, tuple)) and len(e.value) == 2 and tm.veq(
-            e.value[1], tm.slc(r, n, None)) for e in inl)
-        R.check(oid, "THREAD", fd, "stack complete => return remainder after the last item (parse=%s)" % parse, okr,
-                "the return inside the item loop does not hand back the remainder after the last item")
-        if parse and inl:
-            # parsed bytes = count bytes + each item's prefix and data
-            pb = inl[0].value[0]
-            want_piece = tm.slc(acc, None, tm.add([tm.length(acc), tm.mul([-1, tm.length(r)]), n]))
-            R.check(oid, "TILE", fd, "parse=True returns exactly the consumed bytes",
-                    tm.contains(pb, lambda t: tm.veq(t, want_piece)),
-                    "consumed-bytes accumulation is not buffer[:len(buffer)-len(rest)+len(item)]: %s" % tm.show(pb)[:300])
+    # the reader: decided as reader o writer on sized symbolic items (any loop shape, any helper structure)
+    from . import rt
+    rt.check_witness_reader(ctx, oid)
 
 
 def run(ctx):
